@@ -41,7 +41,8 @@ def run_prop(pid, tier, root, seed=0, quiet=False):
         mod.check(prog, run)
         if tier == "thorough" and hasattr(mod, "thorough"):
             mod.thorough(prog, run)
-        if tier == "thorough" and not run.violations() and not run.errors:
+        known = {k["key"] for k in report.load_known() if k.get("property") == pid and k.get("status") == "open"}
+        if tier == "thorough" and not [o for o in run.violations() if o.key() not in known] and not run.errors:
             from sa import selftest as st
             selftest = st.run_selftest(pid, mod, prog, run, seed)
     except AnalysisError as e:
